@@ -111,9 +111,10 @@ fn from_to_generic<T: Sx>() {
     let (ff, tt, d) = (f.dot(f), t.dot(t), f.dot(t));
     assume(ne(ff, k(0)));
     assume(ne(tt, k(0)));
-    // not (within epsilon of) antiparallel: the code's own threshold
+    // not nearly antiparallel: 256 times the code's own threshold, so that a retuned threshold is not an alarm
+    // (the exactly antiparallel case is the next scenario; the band in between is deliberately approximate)
     let n = (ff * tt).sqrt();
-    assume(ge(n + d, n * T::epsilon()));
+    assume(ge(n + d, n * T::epsilon() * k(256)));
     let q: Quaternion<T> = Quaternion::rotation_from_to_3d::<Vec3<T>>(f, t);
     goal("unit", eq(n2(&qe(q)), k(1)));
     let r: Vec3<T> = q * f;
@@ -141,7 +142,7 @@ fn from_to_opposite<T: Sx>() {
 fn angle_axis<T: Sx>() {
     let (q, _) = unit_quat::<T>("q");
     let eps = T::epsilon();
-    assume(ge(k::<T>(1) - q.w * q.w, eps * eps));
+    assume(ge(k::<T>(1) - q.w * q.w, eps * eps * k(65536))); // sin(angle/2) >= 256 EPS: clear of the code's "any axis would do" test, whatever its exact threshold
     let (angle, axis) = q.into_angle_axis();
     goal("axis is unit", eq(axis.x * axis.x + axis.y * axis.y + axis.z * axis.z, k(1)));
     // "describing the same rotation": q and -q are the same rotation, and the property fixes no range for the angle
